@@ -117,6 +117,16 @@ UnaryLemma ==
             /\ \A r \in 1..N : sa[r] = UnarySA(N)[r]
             /\ IsValidSA(UnarySA(N), t) /\ AdmissibleSAs(t) = {sa}
 
+\* closed-form family of the "many distinct LMS names" driver class (checked once, in the state of the
+\* one-symbol text): the zigzag text is a legal suffix_array_int input and ZigzagSA is its suffix array
+ZigzagLemma ==
+    (mode = "order" /\ N = 1) =>
+        \A zm \in 1..6 :
+            LET z == ZigzagText(zm) IN
+            /\ DenseInt(z)
+            /\ \A r \in 1..Len(z) : SortedSA(z)[r] = ZigzagSA(zm)[r]
+            /\ IsValidSA(ZigzagSA(zm), z)
+
 \* the carried l never overshoots: the loop may skip the first l comparisons
 KasaiCarry ==
     (mode = "kasai" /\ st.p < N - 1) => LcpLen(t, st.p, sa[aux[st.p + 1]]) >= st.l
